@@ -319,6 +319,49 @@ class Table:
             return tot
         return ev(rf.num) / ev(rf.den)
 
+    def rewrite(self, rf, f, _memo=None):
+        """Rebuild rf bottom-up; f(atom_id, Atom, new_args) -> RF or None
+        (None: keep the atom with rewritten arguments)."""
+        memo = _memo if _memo is not None else {}
+
+        def rw_arg(x):
+            if isinstance(x, RF):
+                return self.rewrite(x, f, memo)
+            if isinstance(x, Slice):
+                return Slice(*[rw_arg(p) if p is not None else None
+                               for p in x.parts()])
+            if isinstance(x, tuple):
+                return tuple(rw_arg(y) for y in x)
+            return x
+
+        def rw_atom(a):
+            if a in memo:
+                return memo[a]
+            at = self.atoms[a]
+            nargs = tuple(rw_arg(x) for x in at.args)
+            r = f(a, at, nargs)
+            if r is None:
+                if all(self.arg_eq(x, y) for x, y in zip(nargs, at.args)):
+                    r = RF(self, p_atom(a))
+                elif at.head in ('log', 'log10', 'log2'):
+                    r = self.log(at.head, nargs[0])
+                else:
+                    r = self.atom(at.head, nargs, at.extra, at.node)
+            memo[a] = r
+            return r
+
+        def ev(p):
+            tot = self.const(0)
+            for m, c in p.items():
+                term = self.const(c)
+                for a, e in m:
+                    term = term * rw_atom(a).ipow(e)
+                tot = tot + term
+            return tot
+        if not rf.atoms():
+            return rf
+        return ev(rf.num) / ev(rf.den)
+
     def equal(self, a, b):
         a = self.reduce(a)
         b = self.reduce(b)
@@ -657,6 +700,14 @@ class Conv:
             if name not in REDUCERS and name not in ERASED_CALLS:
                 return t.atom('mcall', tuple(args + kwv),
                               extra=('fn:' + name,) + kwn)
+        if name == '_guard' and len(args) == 3:
+            return t.atom('guard', tuple(args))
+        if name == '_alloc' and len(args) == 1:
+            return args[0]
+        if name == 'sum' and recv is None and dotted(n.func) == 'sum' \
+                and len(args) == 1 and not kw:
+            # builtin sum iterates the first axis
+            kwn, kwv = ('axis',), [t.const(0)]
         # numeric normalisations
         if name in ERASED_CALLS and len(args) == 1:
             return args[0]
